@@ -152,6 +152,91 @@ def write_back(ck, P):
             ck.rule_counts[R + ":dispatch"] = {"matched": len(kills), "floor": 40, "write_back_sites": len(wb)}
 
 
+def resume_atomicity(ck, P):
+    """A suspension (need_bits / pull_byte running out of input) re-enters the same arm from its top on the
+    next call.  So between a checkpoint (arm entry, or the success edge of the previous need_bits/pull_byte) and
+    a suspension exit, input bits may be consumed (drop_bits/advance/init_bits) only together with a write of
+    persistent state that records the progress; otherwise the consumed symbol is lost for exactly the schedules
+    that suspend there."""
+    R = "PAIR/resume-atomicity"
+    for path, mt in ((decoders.DISPATCH, 20), (decoders.LEN_AND_FRIENDS, 4)):
+        fn = P.fn(path)
+        if not ck.anchor("fn " + path, fn):
+            continue
+        sws = fn.enum_switches("inflate::Mode", mt)
+        if not ck.anchor("mode switch in " + path, len(sws) == 1):
+            continue
+        sw = sws[0]
+        sus_calls = fn.live_calls(r"BitReader::(need_bits|pull_byte)$")
+        checkpoints = {sw}
+        exits = set()
+        for c in sus_calls:
+            # success / failure edges of the Result switch that follows the call
+            cur = c.target
+            for _ in range(4):
+                t = fn.blocks[cur]["t"]
+                if t["k"] == "switch":
+                    for lab, tb in fn.succ[cur]:
+                        if lab is None or lab[0] == "const":
+                            continue
+                        for a in fn.edge_atoms(cur, lab):
+                            if a[0] != "is":
+                                continue
+                            vs = set(a[2])
+                            if (a[3] and vs == {"Ok"}) or (not a[3] and vs == {"Err"}):
+                                checkpoints.add(tb)
+                            elif (a[3] and vs == {"Err"}) or (not a[3] and vs == {"Ok"}):
+                                exits.add(tb)
+                    break
+                su = fn.succ[cur]
+                if len(su) != 1:
+                    break
+                cur = su[0][1]
+        ck.floor(R + ":suspension-points:" + path.split("::")[-1], len(exits), 20 if mt == 20 else 6)
+        drops = {c.bb for c in fn.live_calls(r"BitReader::(drop_bits|advance|init_bits)$")}
+        commits = set()
+        for bi, fp, root, rv, s in fn.field_writes():
+            if root == ("p", 1) and fp[0] not in ("bit_reader", "mode"):
+                commits.add(bi)
+        for c in fn.live_calls(r"Writer::(push|extend|extend_from_window|copy_match)$|Flags::update$"):
+            commits.add(c.bb)
+        # local mode changes hand over to another arm: also a commit
+        for i, lc in enumerate(fn.locals):
+            if lc.get("name") == "mode" and "inflate::Mode" in lc["ty"]:
+                for bi, si, rv in fn.defs.get(i, []):
+                    if bi in fn.live and rv is not None and si != "call" and fn.enum_const(fn.rvalue_expr(rv)) is not None:
+                        commits.add(bi)
+        bad = []
+        for start in sorted(checkpoints):
+            # search (block, dropped, committed)
+            seen = set()
+            first = (start in drops, start in commits)
+            work = [(tb, first[0], first[1]) for lab, tb in fn.succ[start]]
+            while work:
+                b, d, cm = work.pop()
+                if (b, d, cm) in seen:
+                    continue
+                seen.add((b, d, cm))
+                d2 = d or (b in drops)
+                c2 = cm or (b in commits)
+                if b in exits:
+                    if d2 and not c2:
+                        bad.append((start, b))
+                    continue
+                if b in checkpoints:
+                    continue
+                for lab, tb in fn.succ[b]:
+                    work.append((tb, d2, c2))
+        short = path.split("::")[-1]
+        if bad:
+            lines = sorted({fn.blocks[b]["t"].get("line") for _, b in bad if fn.blocks[b]["t"].get("line")})
+            ck.bad(R, short, "%s can suspend (run out of input) after consuming bits without having recorded the progress in the state "
+                            "(suspension exits near lines %s): on the next call the arm restarts from its top and the consumed symbol is lost — "
+                            "the outcome then depends on where the input was split" % (short, lines[:4]), where(fn, lines[0] if lines else None))
+        else:
+            ck.ok(R, short, "%d suspension exits, %d checkpoints: bits are consumed before a suspension only together with a state commit" % (len(exits), len(checkpoints)))
+
+
 def mode_total(ck, P):
     R = "MODE/total"
     adt = P.adt(Z + "inflate::Mode")
@@ -227,6 +312,7 @@ def run(ck):
     ck.configs.add("K1")
     siblings(ck, P)
     write_back(ck, P)
+    resume_atomicity(ck, P)
     mode_total(ck, P)
     buf_error_shape(ck, P)
     ck.assumptions += ["rustc MIR", "sibling exception table (rules/props/c04.py) confirmed by reading", "host target; K1"]
